@@ -48,3 +48,15 @@ Theorem C13_sender_usart : forall ps ans, Forall wfp ps -> Forall small ps -> no
   (length (wire_packets ps) <= accepts_in ans)%nat ->
   exists rest, usart_send_packets ps ans = Val (wire_packets ps, rest).
 Proof. exact sender_usart. Qed.
+
+Theorem C13_sender_serial : forall ps ans, Forall wfp ps -> Forall small ps -> no_pbad ans ->
+  exists encs, enc_packets ps = Val encs /\ serial_send encs ans true = (wire_packets ps, Val tt).
+Proof. exact sender_serial. Qed.
+
+Theorem C13_sender_can : forall ps ans, Forall wfp ps -> Forall small ps ->
+  let cfs := concat (map (fun p => map can_of (frag_spec p)) ps) in
+  (length cfs <= length (outcomes ans))%nat -> Forall (fun t => t = TSent) (firstn (length cfs) (outcomes ans)) ->
+  mapM (fun p => match to_frames p with Val fs => (match mapM to_bxcan fs with Val cs => Val cs | Fail _ => Panic | Panic => Panic | Hang => Hang end : out (list canframe) lerr) | Fail _ => Panic | Panic => Panic | Hang => Hang end) ps
+    = Val (map (fun p => map can_of (frag_spec p)) ps) /\
+  can_send cfs ans = (cfs, Val tt).
+Proof. exact sender_can. Qed.
